@@ -4287,3 +4287,131 @@ func E9SquareRangeBothEnds(c *core.Ctx, r *core.Report) {
 	r.Count("E9.square-range-ends", n)
 	r.Floor("E9.square-range-ends", 3)
 }
+
+// E9EllipseQuadraticMirror: the two eliminations of the line × ellipse system are mirror images.
+func E9EllipseQuadraticMirror(c *core.Ctx, r *core.Report) {
+	r.Rule("E9.ellipse-quadratic-mirror", "intersectionLineEllipse substitutes the line cx + dy + e = 0 into x²/a + y²/b = 1 and solves A t² + B t + C = 0 for x when the line is mostly horizontal, for y otherwise. Exchanging the roles of x and y exchanges a with b and c with d: the coefficients used on one branch are, as polynomials in a, b, c, d, e, the images of those used on the other under that exchange (A is its own image). Each of A, B, C is expanded on both paths through the `horizontal` test — assignments before the test included — and compared. A coefficient hoisted out of the branch with the horizontal branch's form puts the hits of every ray that meets a rotated ellipse 'vertically' in the wrong place")
+	p := c.MustPkg("")
+	info := p.TypesInfo
+	fd := core.MustFuncDecl(p, "intersectionLineEllipse")
+	// the names of the five quantities: locals assigned as in the comments; taken by name, as the rule speaks of them
+	sym := func(e ast.Expr) string {
+		if id, ok := core.Unparen(e).(*ast.Ident); ok {
+			switch id.Name {
+			case "a", "b", "c", "d", "e":
+				if _, isVar := core.ObjOf(info, id).(*types.Var); isVar {
+					return id.Name
+				}
+			}
+		}
+		return ""
+	}
+	// the branch on the horizontal flag that assigns the coefficients
+	var branch *ast.IfStmt
+	var before []ast.Stmt
+	for i, st := range fd.Body.List {
+		is, ok := st.(*ast.IfStmt)
+		if !ok {
+			continue
+		}
+		assigns := 0
+		ast.Inspect(is, func(k ast.Node) bool {
+			if as, ok := k.(*ast.AssignStmt); ok {
+				for _, l := range as.Lhs {
+					if id, ok := l.(*ast.Ident); ok && (id.Name == "A" || id.Name == "B" || id.Name == "C") {
+						assigns++
+					}
+				}
+			}
+			return true
+		})
+		if assigns > 0 && branch == nil {
+			branch, before = is, fd.Body.List[:i]
+		}
+	}
+	key := "canvas.intersectionLineEllipse|coefficients of the two eliminations mirror each other"
+	r.Count("E9.ellipse-quadratic-mirror", 1)
+	if branch == nil {
+		r.Fail("E9.ellipse-quadratic-mirror", key, c.Pos(fd.Pos()), "the branch that assigns the coefficients A, B, C was not found")
+		return
+	}
+	collect := func(lists ...[]ast.Stmt) map[string]poly {
+		out := map[string]poly{}
+		for _, list := range lists {
+			for _, st := range list {
+				ast.Inspect(st, func(k ast.Node) bool {
+					if _, isIf := k.(*ast.IfStmt); isIf && k != ast.Node(st) {
+						return false
+					}
+					as, ok := k.(*ast.AssignStmt)
+					if !ok || len(as.Lhs) != len(as.Rhs) {
+						return true
+					}
+					for i, l := range as.Lhs {
+						if id, ok := l.(*ast.Ident); ok && (id.Name == "A" || id.Name == "B" || id.Name == "C") {
+							if pl, ok := polyOf(info, as.Rhs[i], sym, nil); ok {
+								out[id.Name] = pl
+							} else {
+								out[id.Name] = poly{"?" + c.Src(as.Rhs[i]): 1}
+							}
+						}
+					}
+					return true
+				})
+			}
+		}
+		return out
+	}
+	var elseList []ast.Stmt
+	if eb, ok := branch.Else.(*ast.BlockStmt); ok {
+		elseList = eb.List
+	}
+	// assignments in front of the branch hold on both paths
+	var pre []ast.Stmt
+	for _, st := range before {
+		if _, isIf := st.(*ast.IfStmt); !isIf {
+			pre = append(pre, st)
+		}
+	}
+	h := collect(pre, branch.Body.List)
+	v := collect(pre, elseList)
+	mirror := func(pl poly) poly {
+		out := poly{}
+		for k, coef := range pl {
+			fs := strings.Split(k, "*")
+			for i, f := range fs {
+				switch f {
+				case "a":
+					fs[i] = "b"
+				case "b":
+					fs[i] = "a"
+				case "c":
+					fs[i] = "d"
+				case "d":
+					fs[i] = "c"
+				}
+			}
+			sort.Strings(fs)
+			out[strings.Join(fs, "*")] += coef
+		}
+		return polyTrim(out)
+	}
+	bad := ""
+	for _, name := range []string{"A", "B", "C"} {
+		ph, ok1 := h[name]
+		pv, ok2 := v[name]
+		if !ok1 || !ok2 {
+			bad = "coefficient " + name + " is not assigned on both paths"
+			break
+		}
+		if !polyEqual(mirror(ph), pv) {
+			bad = fmt.Sprintf("%s is %s when x is kept and %s when y is kept; exchanging a↔b and c↔d in the first gives %s", name, ph, pv, mirror(ph))
+			break
+		}
+	}
+	if bad == "" {
+		r.OK("E9.ellipse-quadratic-mirror", key, c.Pos(branch.Pos()), fmt.Sprintf("A = %s", h["A"]))
+	} else {
+		r.Fail("E9.ellipse-quadratic-mirror", key, c.Pos(branch.Pos()), bad+": the roots on one of the two paths are not the intersections of the line with the ellipse")
+	}
+}
